@@ -53,7 +53,8 @@ def plan(tier, seed):
         require=['big_histories', 'huge_histories', 'swap_cases', 'reorder_to_cases', 'pairs_cases',
                  'sift_cases', 'swap_calls_observed',
                  'swap_index_checks', 'held_refs_rechecked',
-                 'explicit_reorderings_with_dynamic_due'],
+                 'explicit_reorderings_with_dynamic_due',
+                 'connectives_between_reorderings'],
         assumptions=['held references are incref-ed (dd.bdd) or live '
                      'Function objects (dd.autoref)',
                      'pairs given to reorder_to_pairs are disjoint'],
@@ -227,6 +228,12 @@ def sampled(ctx, spec):
         for _ in range(rng.randint(0, 3)):
             w.build(random_table(rng, w.sp))      # garbage
         check('find_or_add')
+        # results of connectives, so that the reorderings below start
+        # with entries in the manager's cache of `ite`
+        for _ in range(rng.randint(0, 3)):
+            rng.choice((w.s_apply, w.s_ite))()
+            ctx.counters['connectives_between_reorderings'] += 1
+        check('apply')
         nt = any(len(w.sp.support(e.tt)) >= 2 for e in w.pool)
         key = tuple(sorted(e.tt for e in w.pool))
         # every adjacent swap
@@ -262,6 +269,14 @@ def sampled(ctx, spec):
                                 (order, dict(w.raw.vars)))
             check('reorder(order)')
             ctx.counters['reorder_to_cases'] += 1
+            if rng.random() < 0.3:
+                # the manager goes on being used in the new order
+                i = len(w.pool)
+                rng.choice((w.s_apply, w.s_ite))()
+                ctx.counters['connectives_between_reorderings'] += 1
+                check('apply')
+                while len(w.pool) > i:
+                    w.drop(len(w.pool) - 1)
             ctx.case(nt, 'to', n, key, start, p)
         # every disjoint pairing of up to 2 pairs (sampled when many)
         if n >= 2:
